@@ -379,3 +379,55 @@ def schedule_sweep(ctx, mine, quick):
     ctx.extra["schedule_sweep"] = "%d schedules (every fate assignment of the first datagrams of each side x 6 send plans; spaces %s), exhaustive in each bound" % (len(scheds), spaces)
     ctx.sample(dict(kind="schedule", schedule=scheds[len(scheds) // 2]))
     report(ctx, rej, traces, lambda tid: "schedule %s" % json.dumps(scheds[tid - 1]), mine)
+
+
+def after_disconnect(ctx, mine):
+    """The receive windows belong to the session, not to the application's interest in it: an endpoint whose application has called disconnect() keeps being
+    polled for a while (waitForDisconnect, the rest of the server tick) and retransmissions of messages it already handed over keep arriving, in NEW datagrams.
+    Conn.tla's AtMostOnce and the window discipline of BitWindow.tla do not end at disconnect(): such a message is a duplicate and its datagram's number is
+    still acknowledged.  Scripted histories (both retry modes, both directions, whole and fragmented messages, several polls after the call)."""
+    from connworld import ConnWorld, FnPolicy
+    tick = 16667
+    for retry in (1, -1):
+        for who in ("c", "s"):
+            for ln in (20, 3000):
+                w = ConnWorld(start_seq=65520 if who == "c" else None)
+                try:
+                    src = "s" if who == "c" else "c"
+                    lose = FnPolicy(fate=lambda *a: [])
+                    for warm in range(3):                       # a little ordinary traffic first
+                        w.vt.us += tick
+                        w.app_send(src, 8, 0, False)
+                        w.endpoint_tick(src, warm, lose)
+                        w.deliver(src, len(w.emitted[src]))
+                    pid = w.app_send(src, ln, retry, True)
+                    sent_upto = len(w.emitted[src])
+                    for k in range(4):                          # the message (all its fragments) reaches the receiver; every ack is lost
+                        w.vt.us += tick
+                        w.endpoint_tick(src, k, lose)
+                    for d in range(sent_upto + 1, len(w.emitted[src]) + 1):
+                        w.deliver(src, d)
+                    first = sum(1 for e in w.ev if e["ev"] == "recv" and e["e"] == who for x in e["delivered"] if x["pid"] == pid)
+                    e = w.ends[who]
+                    mcur0 = int(e.bitfield_msg.current_seqnum)
+                    e.disconnect()
+                    seen = len(w.emitted[src])
+                    for k in range(130):                        # more than two seconds: the resend interval and the ack time-out both pass
+                        w.vt.us += tick
+                        w.endpoint_tick(src, k, lose)
+                        for d in range(seen + 1, len(w.emitted[src]) + 1):
+                            w.deliver(src, d)
+                        seen = len(w.emitted[src])
+                        w.endpoint_tick(who, k, lose)
+                    total = sum(1 for ev in w.ev if ev["ev"] == "recv" and ev["e"] == who for x in ev["delivered"] if x["pid"] == pid)
+                    ctx.case(("after-disconnect", retry, who, ln))
+                    ctx.evaluations += 1
+                    if first != 1:
+                        raise Machinery("after-disconnect scenario: the message was delivered %d times before the call" % first)
+                    if total != 1 or int(e.bitfield_msg.current_seqnum) < mcur0 and mcur0 - int(e.bitfield_msg.current_seqnum) < 30000:
+                        ctx.fail("after disconnect(): a %d-byte message sent with retry=%d and handed to the %s application once was handed over %d time(s) in total when its retransmissions "
+                                 "arrived after the application had called disconnect() (message window newest %d before the call, %d at the end)"
+                                 % (ln, retry, "client" if who == "c" else "server", total, mcur0, int(e.bitfield_msg.current_seqnum)),
+                                 dict(retry=retry, receiver=who, length=ln, deliveries=total))
+                finally:
+                    w.close()
